@@ -354,6 +354,19 @@ def main(a0, a1):
         w = h2(a1)
     return (x, y, z, w, a0 < y <= z != w, 1 < a0 / 3 < 2)
 ''', ['R', 'R']),
+    ('exact-indices-and-lengths-under-narrow-ctx', '''
+@fp.fpy
+def main(a0, a1):
+    with fp.MPFloatContext(2, fp.RM.{rm1}):
+        idx = [i for i, _ in enumerate(a0)]
+        rng = [i for i in range(len(a0))]
+        n = len(a0)
+        s = 0
+        for i, x in enumerate(a0):
+            s = s + i
+        t = [i * a1 for i, x in enumerate(a0)]
+    return (idx, rng, n, s, t, len(a0) / 3)
+''', ['L12', 'R']),
     ('augmented-ops', '''
 @fp.fpy
 def main(a0, a1):
@@ -465,6 +478,8 @@ def template_cases(seed, tier):
                 for t in tys:
                     if t == 'R':
                         args.append(ch.choice(progen.R_POOL))
+                    elif t == 'L12':
+                        args.append([ch.choice(progen.R_POOL) for _ in range(ch.int(7, 13))])
                     else:
                         args.append([ch.choice(progen.R_POOL) for _ in range(ch.int(2, 4))])
                 inputs.append((args, ch.choice(progen.CALLER_CTXS)))
